@@ -141,6 +141,34 @@ def random_case(rng, big=True):
     return drive_case(rng, a, th, tracked, rng.random() < 0.5, rng.randint(5, 40), cmap, tmap)
 
 
+def gap_case(rng):
+    """tree sequences with long stretches without edges (leading, trailing or interior, often longer than half the genome) and
+    histories made of seeks from the null state into / next to the gap followed by steps: the seek-from-null cursors at their limits"""
+    a = gen.random_abstract(rng, N=rng.randint(2, 6), K=rng.randint(3, 7), max_edges=10, nsites=rng.choice([0, 2]), nmuts=1, p_internal_sample=0.2)
+    L = a["L"]
+    kind = rng.choice(["lead", "lead", "trail", "trail", "mid"])
+    glen = rng.randint(max(1, L // 2), L - 1)
+    g0, g1 = (0, glen) if kind == "lead" else (L - glen, L) if kind == "trail" else (1, max(2, min(L - 1, 1 + glen)))
+    edges = []
+    for e in a["edges"]:
+        if e["left"] < g0:
+            edges.append(dict(e, right=min(e["right"], g0)))
+        if e["right"] > g1:
+            edges.append(dict(e, left=max(e["left"], g1)))
+    edges.sort(key=lambda e: (a["time"][e["parent"]], e["parent"], e["child"], e["left"]))
+    a = dict(a, edges=edges, sites=[], muts=[])
+    samples = [u for u in range(len(a["time"])) if a["flags"][u]]
+    tracked = list(samples) if rng.random() < 0.5 else []
+    script = []
+    for _ in range(rng.randint(2, 5)):
+        script.append((0, "clear", 0))
+        script.append((0, "seek", rng.randrange(0, L)))
+        for _k in range(rng.randint(1, 4)):
+            script.append((0, rng.choice(["next", "prev", "next", "prev", "seek"]), rng.randrange(0, L)))
+    cmap, tmap = gen.random_maps(rng)
+    return drive_case(rng, a, rng.choice([1, 1, 2]), tracked, rng.random() < 0.5, len(script), cmap, tmap, script=script)
+
+
 def is_nontrivial(case):
     # >= 2 trees, a direction reversal and a seek from the null state
     ops = [e["op"] for e in case["ops"]]
@@ -200,7 +228,7 @@ def run():
         raise common.MachineryError("no behaviours from Sim_TreeCursor")
     # (3) code -> spec
     n = 400 if QUICK else 6000
-    cases = [random_case(rng, big=(i % 3 != 0)) for i in range(n)]
+    cases = [random_case(rng, big=(i % 3 != 0)) for i in range(n)] + [gap_case(rng) for _ in range(n // 3)]
     # binding self-test: corrupt one recorded field in copies of accepted-looking traces;
     # every corrupted trace must be rejected, otherwise the trace spec is vacuous
     import copy
